@@ -21,7 +21,7 @@ type forcedCase struct {
 }
 
 func runForced(c *core.Case) {
-	fc := &forcedCase{Kind: "forced", Scenario: []string{"M1", "M2", "M3", "M4", "M5", "M6", "M7", "M8"}[(c.Index/8)%8]}
+	fc := &forcedCase{Kind: "forced", Scenario: []string{"M1", "M2", "M3", "M4", "M5", "M6", "M7", "M8", "M9"}[(c.Index/8)%9]}
 	c.Sample(fc)
 	execForced(c, fc)
 }
@@ -197,6 +197,40 @@ func execForced(c *core.Case, fc *forcedCase) {
 			}
 		}
 		do(step{Op: "barrier"})
+	case "M9":
+		// Late answers of the other kind, with the callers' contexts alive: an
+		// error carrying the id of a join that succeeded, of a leave that was
+		// confirmed; a self-presence carrying the id of a join that was refused.
+		// After each of them the serve loop must answer the barrier.
+		if !joinNormally() {
+			break
+		}
+		if !do(step{Op: "late-error", Label: "j", Cond: "conflict"}) || !do(step{Op: "barrier"}) {
+			break
+		}
+		do(step{Op: "leave", Label: "l"})
+		if !do(step{Op: "seen", Label: "l"}) || !do(step{Op: "unavail"}) || !do(step{Op: "await", Label: "l", Must: true}) {
+			break
+		}
+		if !do(step{Op: "late-error", Label: "l", Cond: "not-allowed"}) || !do(step{Op: "barrier"}) {
+			break
+		}
+		do(step{Op: "join", Label: "j2"})
+		if !do(step{Op: "seen", Label: "j2"}) || !do(step{Op: "error", Label: "j2", Cond: "forbidden"}) || !do(step{Op: "await", Label: "j2", Must: true}) {
+			break
+		}
+		if !do(step{Op: "late-self", Label: "j2"}) || !do(step{Op: "barrier"}) {
+			break
+		}
+		// and the next call still works
+		do(step{Op: "kick"})
+		do(step{Op: "barrier"})
+		do(step{Op: "join", Label: "j3"})
+		if do(step{Op: "seen", Label: "j3"}) && do(step{Op: "self"}) {
+			do(step{Op: "await", Label: "j3", Must: true})
+		}
+		do(step{Op: "barrier"})
+		c.Count("forced_M9_reached", 1)
 	case "M6", "M7", "M8":
 		// The room's answer to a join arrives in two transport writes and the
 		// caller gives up in between: M6 the error reply for the request id (its
